@@ -202,7 +202,8 @@ package serf
 //@   oldlet it0, buffered0 := s.recentIntents[leaveMsg.Node]
 //@   oldlet st0 := m0.Status
 //@   oldlet lt0 := m0.statusLTime
-//@   oldlet self := leaveMsg.Node == s.config.NodeName && s.state == SerfAlive
+//@   # the lifecycle state as this call observes it (read once under stateLock; other threads may only have advanced it)
+//@   let self := leaveMsg.Node == s.config.NodeName && s.state == SerfAlive
 //@   oldlet evN := sentN(s.config.EventCh)
 //@   oldlet spN := spawnN()
 //@   let m, known := s.members[leaveMsg.Node]
@@ -920,7 +921,7 @@ package serf
 //@ }
 
 //@ func (s *Serf) State() (st SerfState)
-//@   requires wf: wfLifecycle(s)
+//@   requires receiver: s != nil
 //@   ensures not_before_entry [C34]: st >= old(s.state) && s.state == st
 //@ end
 
